@@ -7,6 +7,7 @@ CONSTANTS n1 = n1
  Byz = {n4}
  NV = 2
  Cands = {"A", "B"}
+ DecCands = {"A"}
  ThrMinus = 0
  ExVerify = TRUE
  AggVerify = TRUE
@@ -14,6 +15,7 @@ CONSTANTS n1 = n1
  MaxBad = 0
  MaxCrash = 0
  ByzClaims = "own"
+ HonestBatches = "all"
 INVARIANTS Safety
 PROPERTIES StoredStable RejectKeeps
 VIEW View
